@@ -86,6 +86,8 @@ pub struct World {
     /// zero-sized tracked elements (no identity): constructions and drops
     pub zst_made: u64,
     pub zst_dropped: u64,
+    /// values compare unequal to everything, themselves included (a NaN-like `PartialEq`)
+    pub val_eq_never: bool,
 }
 
 impl World {
@@ -106,6 +108,7 @@ impl World {
             progress: 0,
             zst_made: 0,
             zst_dropped: 0,
+            val_eq_never: false,
         }
     }
 }
